@@ -496,15 +496,50 @@ func mapOrigins(cg cgView, v ssa.Value, depth int, out map[string]bool) {
 	}
 }
 
-// setMembership: cond is a membership test in a set-like map: `m[k]` of a map[K]bool, or the ok of `_, ok := m[k]`.
-func setMembership(cond ssa.Value) (*ssa.Lookup, bool) {
+// memberTestT: a membership test `Index in X`.
+type memberTestT struct{ X, Index ssa.Value }
+
+// setMembership: cond is a membership test in a set-like map: `m[k]` of a map[K]bool, or the ok of `_, ok := m[k]`
+// - written in place or as the single result of a boolean helper (`set.has(k)`), the helper's parameters being
+// replaced by the arguments of the call.
+func setMembership(cond ssa.Value) (*memberTestT, bool) {
 	if lk, ok := cond.(*ssa.Lookup); ok && !lk.CommaOk {
-		return lk, true
+		return &memberTestT{lk.X, lk.Index}, true
 	}
 	if ex, ok := cond.(*ssa.Extract); ok && ex.Index == 1 {
 		if lk, ok := ex.Tuple.(*ssa.Lookup); ok && lk.CommaOk {
-			return lk, true
+			return &memberTestT{lk.X, lk.Index}, true
 		}
+	}
+	if call, ok := cond.(*ssa.Call); ok {
+		h := call.Call.StaticCallee()
+		if h == nil || h.Blocks == nil || !inModule(h) || h.Signature.Results().Len() != 1 {
+			return nil, false
+		}
+		var res *memberTestT
+		n := 0
+		for _, b := range h.Blocks {
+			r, ok := b.Instrs[len(b.Instrs)-1].(*ssa.Return)
+			if !ok {
+				continue
+			}
+			n++
+			res, _ = setMembership(unspillResult(r.Results[0], b))
+		}
+		if n != 1 || res == nil {
+			return nil, false
+		}
+		bind := func(v ssa.Value) ssa.Value {
+			if p, ok := stripConv(v).(*ssa.Parameter); ok && p.Parent() == h {
+				for i, q := range h.Params {
+					if q == p && i < len(call.Call.Args) {
+						return call.Call.Args[i]
+					}
+				}
+			}
+			return v
+		}
+		return &memberTestT{bind(res.X), bind(res.Index)}, true
 	}
 	return nil, false
 }
